@@ -54,7 +54,8 @@ FreshFrames ==
 \* C04: a comprehension yields what its explicit loop yields
 ComprEqualsLoop ==
   \A p \in CpParams : p[2] = 1 =>
-     Run(Build(p)).st.log = Run(Build(<<"cp", 2, p[3], p[4], p[5]>>)).st.log
+     LET a == Run(Build(p))  b == Run(Build(<<"cp", 2, p[3], p[4], p[5], p[6]>>))
+     IN a.st.log = b.st.log /\ a.o.t = b.o.t
 
 TypeOK == res.o.t \in {"val", "err", "fuel"}      \* signals never leave Run
 
